@@ -6,8 +6,13 @@ Deductive part built so far (mofun/atoms.py):
     what makes `other type id + offset` resolve to the other's own coefficient text;
   * the closure find_existing_topo of Atoms.extend: with the assumed cdist/nonzero contract it returns exactly the rows of the existing
     term array that equal a new term forwards or backwards.
-The body of extend itself (append of atoms, identity map, index conversion, supersession, extra-column merge) is BOUNDED on the real code
-(bounded/C11.py: all small pairs x identity maps).
+  * the whole body of Atoms.extend (prove_extend): the loop over structure_index_map.items() is cut with an invariant (mapped rows carry
+    the other's type + offset and extra row, all other rows unchanged); postconditions over every row of every array: existing atoms
+    keep position / charge / group, unmapped atoms are appended in the other's order with shifted types, every term of `other` is
+    converted through the map (mapped -> the existing atom, unmapped -> N + its rank among the unmapped) and appended with its type
+    shifted, an existing term is dropped iff a converted term joins the same atoms in either orientation, `other` is not modified.
+    Assumed: numpy primitives (models_np / models_ext), the label merge of _extend_extra_fields (bounded stage exercises it).
+The bounded stage (bounded/C11.py) runs the real code on all small pairs x identity / non-identity maps against a reference model.
 """
 import z3
 
